@@ -23,23 +23,30 @@
 (*   Finish       nothing collected under explicit routing: no header      *)
 (*   Encode       header text `k1=v1&k2=v2`, keys and values URL-encoded   *)
 (*   Send         the metadata entry / HTTP header reaches the server      *)
+(*   NextPage     a paginated method: the pager fetches the next page by   *)
+(*                repeating the call; EVERY fetch carries the header       *)
 (*   Refuse       (named deviation) the REST transport may refuse to       *)
 (*                transcode a request whose path variables do not match    *)
 (*                its http rule: no request is sent at all (C04's subject) *)
 (* Rule-building steps (PickKind .. AddParam / AddVar, SetField, StartCall) *)
 (* let TLC enumerate / sample the quantifier: routing rules x request      *)
 (* values; Again tries another request on the same rule.                   *)
+(* Field presence: a routing field declared proto3 `optional` can be unset *)
+(* or explicitly set to "" (member of `blank`); both are EMPTY: the        *)
+(* property speaks of non-empty fields, so neither contributes anything.   *)
 (***************************************************************************)
 EXTENDS Naturals, Sequences, FiniteSets, TLC, SequencesExt, FiniteSetsExt, Json
 
 CONSTANTS MaxParams,   \* explicit rules have 0..MaxParams routing parameters (over at most two fields)
           MaxVars,     \* implicit path templates have 1..MaxVars variables
-          Pool,        \* "small" | "mid" | "large" | "keyword": template / field pools offered to the builder
+          Pool,        \* "small" | "mid" | "large" | "keyword" | "presence": template / field pools offered to the builder
+          OptFields,   \* top-level request fields the builder may declare proto3 `optional` (explicit presence)
+          MaxPages,    \* > 1: methods may be paginated and a listing spans 2..MaxPages page fetches
           MaxCalls,    \* requests tried per rule in one behaviour
           Mutant       \* "none" for the design; anything else is a self-test mutant TLC must reject
 
-VARIABLES pc, rule, want, cur, todo, req, calls, pidx, i, hdr, present, text, sent
-vars == <<pc, rule, want, cur, todo, req, calls, pidx, i, hdr, present, text, sent>>
+VARIABLES pc, rule, want, cur, todo, req, blank, calls, npages, page, pidx, i, hdr, present, text, sent
+vars == <<pc, rule, want, cur, todo, req, blank, calls, npages, page, pidx, i, hdr, present, text, sent>>
 
 -----------------------------------------------------------------------------
 (* Characters, segments, values                                            *)
@@ -111,7 +118,9 @@ ZeroReq == [f \in AllKeys |-> <<>>]
 KeyOf(p) == IF p.tmpl = NoTemplate THEN Dot(p.field) ELSE p.tmpl.key
 (* the set of contributions of one parameter: empty, or the one value it sends *)
 Contrib(p, r) == LET v == ReadAttr(r, p.field) IN
-                 IF v = <<>> THEN {}                                    \* field empty: nothing
+                 IF v = <<>>                                            \* field empty (unset, or an optional field
+                 THEN IF Mutant = "presence_counts" /\ p.tmpl = NoTemplate /\ Dot(p.field) \in blank   \* set to ""):
+                      THEN {<<>>} ELSE {}                               \* nothing
                  ELSE IF p.tmpl = NoTemplate THEN {v}                   \* no template: the whole field
                  ELSE {c \in Captures(p.tmpl, v) : ~TextEmpty(c)}       \* matches and captures something
 Put(h, key, val) == {e \in h : e[1] # key} \cup {<<key, val>>}
@@ -184,14 +193,16 @@ NoRaw(t) == /\ \A j \in 1..Len(t) : ~IsRaw(t[j])
 -----------------------------------------------------------------------------
 (* The quantifier: pools the rule builder draws from                       *)
 Bases == CASE Pool = "keyword" -> {}
+           [] Pool = "presence" -> {<<DStar>>}
            [] Pool = "small" -> {<<Star>>, <<DStar>>, <<Lit(P), Star, DStar>>}
            [] Pool = "mid"   -> {<<Star>>, <<DStar>>, <<Lit(P), Star>>, <<Lit(P), Star, DStar>>,
                                  <<Lit(P), Star, Lit(I), Star>>}
            [] OTHER          -> {<<Star>>, <<DStar>>, <<Lit(P), Star>>, <<Lit(P), DStar>>, <<Lit(P), Star, DStar>>,
                                  <<Lit(P), Star, Lit(I), Star>>, <<Lit(P), Star, Lit(T), Star>>,
                                  <<Lit(P), Star, Lit(I), Star, DStar>>, <<Lit(P), Star, Lit(I), Star, Lit(T), Star>>}
-CapKeys == CASE Pool = "small" -> {"k"} [] Pool = "mid" -> {"k", "name"} [] OTHER -> {"k", "table_id", "name"}
+CapKeys == CASE Pool = "small" -> {"k"} [] Pool = "presence" -> {"k", "name"} [] Pool = "mid" -> {"k", "name"} [] OTHER -> {"k", "table_id", "name"}
 ParamPaths == CASE Pool = "keyword" -> {<<"class">>}
+                [] Pool = "presence" -> {<<"name">>, <<"other">>}
                 [] Pool = "small" -> {<<"name">>, <<"sub", "type">>}
                 [] Pool = "mid"   -> {<<"name">>, <<"other">>, <<"sub", "name">>, <<"type">>}
                 [] OTHER          -> {<<"name">>, <<"other">>, <<"type">>, <<"sub", "name">>, <<"sub", "type">>}
@@ -202,19 +213,23 @@ TemplatesOn(b) == IF b = <<>> THEN {NoTemplate}
                   ELSE {[toks |-> b, from |-> r[1], to |-> r[2], key |-> key] :
                           r \in {x \in Ranges(b) : x[1] <= x[2]}, key \in CapKeys}
 (* variables of http path templates: `{f}`, `{f=*}`, `{f=projects/*}` ...; `**` only in the last variable *)
-VarToks == CASE Pool = "keyword" -> {<<Star>>}
+VarToks == CASE Pool \in {"keyword", "presence"} -> {<<Star>>}
              [] Pool = "small" -> {<<Star>>, <<Lit(P), Star>>, <<DStar>>}
              [] OTHER          -> {<<Star>>, <<Lit(P), Star>>, <<Lit(P), Star, Lit(I), Star>>, <<DStar>>, <<Lit(P), Star, DStar>>}
 VarPaths == CASE Pool = "keyword" -> {<<"sub", "class">>}
+              [] Pool = "presence" -> {<<"name">>}
               [] Pool = "small" -> {<<"name">>, <<"type">>, <<"sub", "name">>}
               [] OTHER -> {<<"name">>, <<"other">>, <<"type">>, <<"sub", "name">>, <<"sub", "type">>}
 \* http rule of an explicitly routed method: no variable, or one the routing annotation must take precedence over
-ExplicitBindings == IF Pool = "keyword" THEN {<<>>} ELSE {<<>>, <<[field |-> <<"name">>, toks |-> <<DStar>>]>>}
+ExplicitBindings == IF Pool \in {"keyword", "presence"} THEN {<<>>} ELSE {<<>>, <<[field |-> <<"name">>, toks |-> <<DStar>>]>>}
 \* optional additional binding (never used for the header)
-Additional == IF Pool = "keyword" THEN {<<>>} ELSE {<<>>, <<[field |-> <<"other">>, toks |-> <<Star>>]>>}
+Additional == IF Pool \in {"keyword", "presence"} THEN {<<>>} ELSE {<<>>, <<[field |-> <<"other">>, toks |-> <<Star>>]>>}
 \* custom: the primary (and only) binding is written with the `custom` pattern of HttpRule (e.g. kind HEAD) instead of
 \* get/put/post/delete/patch; it is still the primary path template, but the REST transport has no binding for it
-EmptyRule == [explicit |-> FALSE, custom |-> FALSE, params |-> <<>>, http |-> <<>>]
+\* opt: the request fields declared proto3 `optional`;  paged: the method is paginated (page_size / page_token /
+\* next_page_token), so one listing is a sequence of calls
+EmptyRule == [explicit |-> FALSE, custom |-> FALSE, paged |-> FALSE, opt |-> {}, params |-> <<>>, http |-> <<>>]
+PagedChoices == IF MaxPages > 1 THEN BOOLEAN ELSE {FALSE}
 
 (* request values derived from the rule: empty, matching (plain / needing escaping / with and without a    *)
 (* `**` tail), and broken variants of a matching value                                                     *)
@@ -234,94 +249,115 @@ ValuesFor(rl, key) == {<<>>} \cup UNION {ValuesOf(rl.params[j].tmpl.toks) : j \i
 -----------------------------------------------------------------------------
 PathNames == <<"sync", "async", "rest">>
 NoneSent == [p \in ToSet(PathNames) |-> [st |-> "none", present |-> FALSE, pairs |-> {}]]
-NoCur == [field |-> <<>>, toks |-> <<>>]
+NoCur == [field |-> <<>>, toks |-> <<>>, opt |-> FALSE]
 
-Init == /\ pc = "kind" /\ rule = EmptyRule /\ want = 0 /\ cur = NoCur /\ todo = {} /\ req = ZeroReq /\ calls = 0
+Init == /\ pc = "kind" /\ rule = EmptyRule /\ want = 0 /\ cur = NoCur /\ todo = {} /\ req = ZeroReq /\ blank = {}
+        /\ calls = 0 /\ npages = 1 /\ page = 1
         /\ pidx = 0 /\ i = 0 /\ hdr = {} /\ present = FALSE /\ text = <<>> /\ sent = NoneSent
 
 (* ---- building the rule (input space) ---- *)
 PickKind(e) == /\ pc = "kind"
                /\ rule' = [rule EXCEPT !.explicit = e]
                /\ pc' = IF e THEN "elen" ELSE "ilen"
-               /\ UNCHANGED <<want, cur, todo, req, calls, pidx, i, hdr, present, text, sent>>
-ToReq(rl) == /\ pc' = "req" /\ todo' = FieldsRead(rl) /\ req' = ZeroReq
-PickExplicit(n, b) == /\ pc = "elen"
-                      /\ rule' = [rule EXCEPT !.http = <<b>>]
-                      /\ want' = n
-                      /\ IF n = 0 THEN ToReq(rule') ELSE pc' = "ptoks" /\ UNCHANGED <<todo, req>>
-                      /\ UNCHANGED <<cur, calls, pidx, i, hdr, present, text, sent>>
-PickField(f, b) == /\ pc = "ptoks"
-                   /\ Cardinality({rule.params[j].field : j \in 1..Len(rule.params)} \cup {f}) <= 2
-                   /\ cur' = [field |-> f, toks |-> b] /\ pc' = "pcap"
-                   /\ UNCHANGED <<rule, want, todo, req, calls, pidx, i, hdr, present, text, sent>>
+               /\ UNCHANGED <<want, cur, todo, req, blank, calls, npages, page, pidx, i, hdr, present, text, sent>>
+ToReq(rl) == /\ pc' = "req" /\ todo' = FieldsRead(rl) /\ req' = ZeroReq /\ blank' = {}
+PickExplicit(n, b, pg) ==
+    /\ pc = "elen"
+    /\ rule' = [rule EXCEPT !.http = <<b>>, !.paged = pg]
+    /\ want' = n
+    /\ IF n = 0 THEN ToReq(rule') ELSE pc' = "ptoks" /\ UNCHANGED <<todo, req, blank>>
+    /\ UNCHANGED <<cur, calls, npages, page, pidx, i, hdr, present, text, sent>>
+(* o: the field is declared `optional` (one declaration per field, whatever number of parameters read it) *)
+PickField(f, b, o) ==
+    /\ pc = "ptoks"
+    /\ Cardinality({rule.params[j].field : j \in 1..Len(rule.params)} \cup {f}) <= 2
+    /\ o => (Len(f) = 1 /\ Dot(f) \in OptFields)
+    /\ (\E j \in 1..Len(rule.params) : rule.params[j].field = f) => (o = (Dot(f) \in rule.opt))
+    /\ cur' = [field |-> f, toks |-> b, opt |-> o] /\ pc' = "pcap"
+    /\ UNCHANGED <<rule, want, todo, req, blank, calls, npages, page, pidx, i, hdr, present, text, sent>>
 AddParam(t) == /\ pc = "pcap"
-               /\ rule' = [rule EXCEPT !.params = Append(@, [field |-> cur.field, tmpl |-> t])]
-               /\ IF Len(rule.params) + 1 = want THEN ToReq(rule') ELSE pc' = "ptoks" /\ UNCHANGED <<todo, req>>
+               /\ rule' = [rule EXCEPT !.params = Append(@, [field |-> cur.field, tmpl |-> t]),
+                                       !.opt = IF cur.opt THEN @ \cup {Dot(cur.field)} ELSE @]
+               /\ IF Len(rule.params) + 1 = want THEN ToReq(rule') ELSE pc' = "ptoks" /\ UNCHANGED <<todo, req, blank>>
                /\ cur' = NoCur
-               /\ UNCHANGED <<want, calls, pidx, i, hdr, present, text, sent>>
-PickImplicit(n, a, c) == /\ pc = "ilen" /\ (c => a = <<>>)
-                      /\ rule' = [rule EXCEPT !.http = IF a = <<>> THEN <<<<>>>> ELSE <<<<>>, a>>, !.custom = c]
-                      /\ want' = n /\ pc' = "vars"
-                      /\ UNCHANGED <<cur, todo, req, calls, pidx, i, hdr, present, text, sent>>
+               /\ UNCHANGED <<want, calls, npages, page, pidx, i, hdr, present, text, sent>>
+PickImplicit(n, a, c, pg) ==
+    /\ pc = "ilen" /\ (c => (a = <<>> /\ ~pg))
+    /\ rule' = [rule EXCEPT !.http = IF a = <<>> THEN <<<<>>>> ELSE <<<<>>, a>>, !.custom = c, !.paged = pg]
+    /\ want' = n /\ pc' = "vars"
+    /\ UNCHANGED <<cur, todo, req, blank, calls, npages, page, pidx, i, hdr, present, text, sent>>
 AddVar(f, b) == /\ pc = "vars"
                 /\ \A j \in 1..Len(rule.http[1]) : rule.http[1][j].field # f /\ ~HasDStar(rule.http[1][j].toks)
                 /\ rule' = [rule EXCEPT !.http[1] = Append(@, [field |-> f, toks |-> b])]
-                /\ IF Len(rule.http[1]) + 1 = want THEN ToReq(rule') ELSE pc' = "vars" /\ UNCHANGED <<todo, req>>
-                /\ UNCHANGED <<want, cur, calls, pidx, i, hdr, present, text, sent>>
-(* the request: one value per field the rule reads (every other field stays empty) *)
+                /\ IF Len(rule.http[1]) + 1 = want THEN ToReq(rule') ELSE pc' = "vars" /\ UNCHANGED <<todo, req, blank>>
+                /\ UNCHANGED <<want, cur, calls, npages, page, pidx, i, hdr, present, text, sent>>
+(* the request: one value per field the rule reads (every other field stays unset); an `optional` field can   *)
+(* also be set explicitly to the empty string (e = TRUE), which is still an EMPTY field                        *)
 NextField == CHOOSE f \in todo : TRUE
-SetField(v) == /\ pc = "req" /\ todo # {}
-               /\ req' = [req EXCEPT ![NextField] = v] /\ todo' = todo \ {NextField}
-               /\ UNCHANGED <<pc, rule, want, cur, calls, pidx, i, hdr, present, text, sent>>
-StartCall == /\ pc = "req" /\ todo = {}
-             /\ calls' = calls + 1 /\ pidx' = 1 /\ sent' = NoneSent /\ pc' = "idle"
-             /\ i' = 0 /\ hdr' = {} /\ present' = FALSE /\ text' = <<>>
-             /\ UNCHANGED <<rule, want, cur, todo, req>>
+SetField(v, e) ==
+    /\ pc = "req" /\ todo # {}
+    /\ e => (v = <<>> /\ NextField \in rule.opt)
+    /\ req' = [req EXCEPT ![NextField] = v] /\ todo' = todo \ {NextField}
+    /\ blank' = IF e THEN blank \cup {NextField} ELSE blank
+    /\ UNCHANGED <<pc, rule, want, cur, calls, npages, page, pidx, i, hdr, present, text, sent>>
+StartCall(np) ==
+    /\ pc = "req" /\ todo = {}
+    /\ calls' = calls + 1 /\ pidx' = 1 /\ sent' = NoneSent /\ pc' = "idle"
+    /\ npages' = np /\ page' = 1
+    /\ i' = 0 /\ hdr' = {} /\ present' = FALSE /\ text' = <<>>
+    /\ UNCHANGED <<rule, want, cur, todo, req, blank>>
 (* the guards are repeated in front of the quantifiers so that TLC does not enumerate the pools in states  *)
 (* where the step is not enabled anyway                                                                 *)
 Build == \/ pc = "kind"  /\ \E e \in BOOLEAN : PickKind(e)
-         \/ pc = "elen"  /\ \E n \in 0..MaxParams, b \in ExplicitBindings : PickExplicit(n, b)
-         \/ pc = "ptoks" /\ \E f \in ParamPaths, b \in Bases \cup {<<>>} : PickField(f, b)
+         \/ pc = "elen"  /\ \E n \in 0..MaxParams, b \in ExplicitBindings, pg \in PagedChoices : PickExplicit(n, b, pg)
+         \/ pc = "ptoks" /\ \E f \in ParamPaths, b \in Bases \cup {<<>>}, o \in BOOLEAN : PickField(f, b, o)
          \/ pc = "pcap"  /\ \E t \in TemplatesOn(cur.toks) : AddParam(t)
-         \/ pc = "ilen"  /\ \E n \in 1..MaxVars, a \in Additional, c \in BOOLEAN : PickImplicit(n, a, c)
+         \/ pc = "ilen"  /\ \E n \in 1..MaxVars, a \in Additional, c \in BOOLEAN, pg \in PagedChoices : PickImplicit(n, a, c, pg)
          \/ pc = "vars"  /\ \E f \in VarPaths, b \in VarToks : AddVar(f, b)
-         \/ pc = "req" /\ todo # {} /\ \E v \in ValuesFor(rule, NextField) : SetField(v)
-         \/ StartCall
+         \/ pc = "req" /\ todo # {} /\ \E v \in ValuesFor(rule, NextField), e \in BOOLEAN : SetField(v, e)
+         \/ pc = "req" /\ todo = {} /\ \E np \in (IF rule.paged THEN 2..MaxPages ELSE {1}) : StartCall(np)
 
 (* ---- one call on one client path ---- *)
 Path == PathNames[pidx]
 NSteps == IF rule.explicit THEN Len(rule.params) ELSE Len(PrimaryVars(rule))
 Invoke == /\ pc = "idle" /\ pidx <= 3
-          /\ pc' = "build" /\ i' = 0 /\ hdr' = {} /\ present' = FALSE /\ text' = <<>>
-          /\ UNCHANGED <<rule, want, cur, todo, req, calls, pidx, sent>>
+          /\ pc' = "build" /\ i' = 0 /\ hdr' = {} /\ present' = FALSE /\ text' = <<>> /\ page' = 1
+          /\ UNCHANGED <<rule, want, cur, todo, req, blank, calls, npages, pidx, sent>>
 BuildParam == /\ pc = "build" /\ rule.explicit /\ i < NSteps
               /\ i' = i + 1 /\ hdr' = StepParam(hdr, rule.params[i + 1], req)
-              /\ UNCHANGED <<pc, rule, want, cur, todo, req, calls, pidx, present, text, sent>>
+              /\ UNCHANGED <<pc, rule, want, cur, todo, req, blank, calls, npages, page, pidx, present, text, sent>>
 BuildVar == /\ pc = "build" /\ ~rule.explicit /\ i < NSteps
             /\ i' = i + 1 /\ hdr' = hdr \cup {ImplicitPair(PrimaryVars(rule)[i + 1], req)}
-            /\ UNCHANGED <<pc, rule, want, cur, todo, req, calls, pidx, present, text, sent>>
+            /\ UNCHANGED <<pc, rule, want, cur, todo, req, blank, calls, npages, page, pidx, present, text, sent>>
 Drops == \/ (rule.explicit /\ hdr = {} /\ Mutant # "empty_header")
          \/ (Mutant = "async_drops_header" /\ Path = "async")
 Finish == /\ pc = "build" /\ i = NSteps
           /\ pc' = IF Drops THEN "send" ELSE "encode"
-          /\ UNCHANGED <<rule, want, cur, todo, req, calls, pidx, i, hdr, present, text, sent>>
+          /\ UNCHANGED <<rule, want, cur, todo, req, blank, calls, npages, page, pidx, i, hdr, present, text, sent>>
 EncodeAs(t) == /\ pc = "encode"
                /\ text' = t /\ present' = TRUE /\ pc' = "send"
-               /\ UNCHANGED <<rule, want, cur, todo, req, calls, pidx, i, hdr, sent>>
+               /\ UNCHANGED <<rule, want, cur, todo, req, blank, calls, npages, page, pidx, i, hdr, sent>>
 Encode == pc = "encode" /\ \E order \in SetToSeqs(hdr) : EncodeAs(EncodeText(order))
+(* one call reaches the server; a listing continues with the next page on the same client path *)
 Send == /\ pc = "send"
         /\ sent' = [sent EXCEPT ![Path] = [st |-> "sent", present |-> present,
                                            pairs |-> IF present THEN Decode(text) ELSE {}]]
-        /\ pidx' = pidx + 1 /\ pc' = IF pidx = 3 THEN "done" ELSE "idle"
-        /\ UNCHANGED <<rule, want, cur, todo, req, calls, i, hdr, present, text>>
-Refuse == /\ pc \in {"encode", "send"} /\ Path = "rest" /\ ~RestMustSend(rule, req)
+        /\ IF page < npages THEN pc' = "page" /\ pidx' = pidx
+           ELSE pidx' = pidx + 1 /\ pc' = IF pidx = 3 THEN "done" ELSE "idle"
+        /\ UNCHANGED <<rule, want, cur, todo, req, blank, calls, npages, page, i, hdr, present, text>>
+(* the pager repeats the call (same request but page_token, same call options): the header is due again *)
+NextPage == /\ pc = "page" /\ page < npages
+            /\ page' = page + 1 /\ present' = FALSE /\ text' = <<>>
+            /\ pc' = IF Drops \/ Mutant = "one_shot_metadata" THEN "send" ELSE "encode"
+            /\ UNCHANGED <<rule, want, cur, todo, req, blank, calls, npages, pidx, i, hdr, sent>>
+Refuse == /\ pc \in {"encode", "send"} /\ Path = "rest" /\ page = 1 /\ ~RestMustSend(rule, req)
           /\ sent' = [sent EXCEPT ![Path] = [st |-> "refused", present |-> FALSE, pairs |-> {}]]
           /\ pidx' = pidx + 1 /\ pc' = IF pidx = 3 THEN "done" ELSE "idle"
-          /\ UNCHANGED <<rule, want, cur, todo, req, calls, i, hdr, present, text>>
+          /\ UNCHANGED <<rule, want, cur, todo, req, blank, calls, npages, page, i, hdr, present, text>>
 Again == /\ pc = "done" /\ calls < MaxCalls
-         /\ pc' = "req" /\ todo' = FieldsRead(rule) /\ req' = ZeroReq
-         /\ UNCHANGED <<rule, want, cur, calls, pidx, i, hdr, present, text, sent>>
-Call == Invoke \/ BuildParam \/ BuildVar \/ Finish \/ Encode \/ Send \/ Refuse
+         /\ pc' = "req" /\ todo' = FieldsRead(rule) /\ req' = ZeroReq /\ blank' = {}
+         /\ UNCHANGED <<rule, want, cur, calls, npages, page, pidx, i, hdr, present, text, sent>>
+Call == Invoke \/ BuildParam \/ BuildVar \/ Finish \/ Encode \/ Send \/ NextPage \/ Refuse
 Next == Build \/ Call \/ Again
 Spec == Init /\ [][Next]_vars
 
@@ -329,7 +365,7 @@ Spec == Init /\ [][Next]_vars
 (* The property, clause by clause (checked on every reachable state)       *)
 Got(p) == sent[p]
 Arrived == {p \in ToSet(PathNames) : sent[p].st = "sent"}
-Ready == pc \in {"idle", "done"}          \* the states right after something arrived (or was refused)
+Ready == pc \in {"idle", "page", "done"}  \* the states right after a call arrived (or was refused): EVERY call
 
 \* explicit: each parameter whose field is non-empty and matches contributes its capture, last one wins per key
 Inv_Explicit == (Ready /\ rule.explicit) => \A p \in Arrived : Got(p).pairs = LastWins(rule.params, req)
@@ -368,11 +404,12 @@ Inv_MatchGen == (pc = "req" /\ todo = FieldsRead(rule) /\ calls = 0) =>
              /\ LET v0 == Inst(t.toks, X, <<>>) IN                          \* ... and none of them is optional
                 ~Matches(t, SubSeq(v0, 1, j - 1) \o SubSeq(v0, j + 1, Len(v0)))
        /\ (~HasDStar(t.toks) => ~Matches(t, Inst(t.toks, X, <<>>) \o <<Y>>))   \* `*` is exactly one segment
-Inv_Bounded == calls <= MaxCalls /\ Len(rule.params) <= MaxParams
+Inv_Bounded == /\ calls <= MaxCalls /\ Len(rule.params) <= MaxParams /\ page <= npages /\ npages <= (IF MaxPages > 1 THEN MaxPages ELSE 1)
+               /\ blank \subseteq rule.opt /\ \A f \in blank : req[f] = <<>>       \* explicitly empty is still empty
 
 \* spec -> code: one case per (rule, request) with the observables the specification predicts
 Emit == pc = "done" =>
-          PrintT(<<"CASE", ToJson([rule |-> rule, req |-> req,
+          PrintT(<<"CASE", ToJson([rule |-> rule, req |-> req, blank |-> blank, npages |-> npages,
                                    present |-> sent["sync"].present,
                                    pairs |-> sent["sync"].pairs,
                                    restmust |-> RestMustSend(rule, req)])>>)
